@@ -158,9 +158,9 @@ func doCheck(prop, tier, repo, verif, only string, dump bool, timeoutS, seed int
 		}
 	}
 	if timeoutS == 0 {
-		timeoutS = 20
+		timeoutS = 40
 		if tier == "thorough" {
-			timeoutS = 60
+			timeoutS = 90
 		}
 	}
 	smtDir := filepath.Join(verif, "out", "smt", prop)
@@ -303,9 +303,17 @@ func solveObligation(j *oblResult, smtDir string, timeoutS int, all bool, seed i
 func claimsPath(verif, prop string) string { return filepath.Join(verif, "claims", prop+".json") }
 
 func writeClaims(verif, prop string, out *checkOutcome) int {
-	var names []string
+	var names, notClaimed []string
 	bad := 0
 	for _, r := range out.results {
+		switch r.Cls {
+		case "discharged", "cover-ok", "canary-live", "bounded":
+		default:
+			notClaimed = append(notClaimed, r.O.Name)
+		}
+		if (r.Cls == "discharged" || r.Cls == "cover-ok" || r.Cls == "canary-live") && r.R.Time > 5.0 {
+			notClaimed = append(notClaimed, r.O.Name)
+		}
 		switch r.Cls {
 		case "bounded":
 			names = append(names, r.O.Name)
@@ -330,7 +338,13 @@ func writeClaims(verif, prop string, out *checkOutcome) int {
 	}
 	sort.Strings(names)
 	os.MkdirAll(filepath.Join(verif, "claims"), 0o755)
-	b, _ := json.MarshalIndent(map[string]any{"property": prop, "obligations": names}, "", " ")
+	sort.Strings(notClaimed)
+	if notClaimed == nil {
+		notClaimed = []string{}
+	}
+	// "known_unclaimed": obligations that exist on the unchanged tree but are not claimed (slow, or covers the
+	// solvers cannot decide). Anything else that shows up undecided later is NEW and is reported.
+	b, _ := json.MarshalIndent(map[string]any{"property": prop, "obligations": names, "known_unclaimed": notClaimed}, "", " ")
 	if err := os.WriteFile(claimsPath(verif, prop), append(b, '\n'), 0o644); err != nil {
 		fmt.Fprintln(os.Stderr, err)
 		return 2
@@ -340,17 +354,27 @@ func writeClaims(verif, prop string, out *checkOutcome) int {
 }
 
 func loadClaims(verif, prop string) ([]string, bool) {
+	c, _, ok := loadClaims2(verif, prop)
+	return c, ok
+}
+
+func loadClaims2(verif, prop string) ([]string, map[string]bool, bool) {
 	b, err := os.ReadFile(claimsPath(verif, prop))
 	if err != nil {
-		return nil, false
+		return nil, nil, false
 	}
 	var c struct {
-		Obligations []string `json:"obligations"`
+		Obligations    []string `json:"obligations"`
+		KnownUnclaimed []string `json:"known_unclaimed"`
 	}
 	if json.Unmarshal(b, &c) != nil {
-		return nil, false
+		return nil, nil, false
 	}
-	return c.Obligations, true
+	ku := map[string]bool{}
+	for _, n := range c.KnownUnclaimed {
+		ku[n] = true
+	}
+	return c.Obligations, ku, true
 }
 
 func loadKnown(verif string) *KnownFile {
@@ -364,7 +388,7 @@ func loadKnown(verif string) *KnownFile {
 }
 
 func report(prop, tier, repo, verif string, seed int, out *checkOutcome, partial bool) int {
-	claims, haveClaims := loadClaims(verif, prop)
+	claims, knownUnclaimed, haveClaims := loadClaims2(verif, prop)
 	claimed := map[string]bool{}
 	for _, c := range claims {
 		claimed[c] = true
@@ -449,7 +473,10 @@ func report(prop, tier, repo, verif string, seed int, out *checkOutcome, partial
 			}
 		case "undecided":
 			total++
-			if !haveClaims || claimed[r.O.Name] {
+			// claimed and no longer discharged, or NEW (generated by the current source only, e.g. a `never` clause
+			// that became reachable) and not discharged: both are reported. Known-unclaimed ones are only noted.
+			isNew := haveClaims && !partial && !claimed[r.O.Name] && !knownUnclaimed[r.O.Name] && r.O.Kind != "cover" && !hasProp(r.O.Props, "unclaimed")
+			if !haveClaims || claimed[r.O.Name] || isNew {
 				file, confirmed := replayViolation(replayDir, prop, r, repo, verif)
 				violation(r.O.Name, file, !confirmed)
 			} else {
